@@ -156,6 +156,8 @@ class AbsEval(ConstEval):
                 t = pytype_of(base)
                 if t == "str" and e.attr in ("lower", "upper", "strip", "startswith", "endswith", "split", "isdigit", "casefold"):
                     return ("boundmethod", base, e.attr)
+                if t in ("datetime", "Decimal", "float", "int"):
+                    return Res("attr:" + e.attr, base)  # attribute of an opaque library value: stays a term
                 raise AbsRaise("AttributeError", f"{t or 'value'} {base!r} has no attribute {e.attr}")
             if base is None:
                 raise AbsRaise("AttributeError", f"None has no attribute {e.attr}")
@@ -267,6 +269,9 @@ class AbsEval(ConstEval):
                     return Sym(f"{e.func.attr}({base!r})", "str") if False else _typed(Res(e.func.attr, base), "str")
                 if pytype_of(base) == "str" and e.func.attr in ("startswith", "endswith", "isdigit"):
                     raise SymbolicBranch(Res(e.func.attr, base, *args), e)
+                if pytype_of(base) in ("datetime", "Decimal", "float", "int"):
+                    kw = {k.arg: self.eval(k.value, env, mod) for k in e.keywords if k.arg}
+                    return Res("method:" + e.func.attr, base, *args, *[Res("kw:" + k, v) for k, v in sorted(kw.items())])
                 raise AbsRaise("AttributeError", f"{base!r}.{e.func.attr}")
             if base is None:
                 raise AbsRaise("AttributeError", f"None.{e.func.attr}")
